@@ -170,4 +170,8 @@ def addGeneric (o : ConvOpts) (t : List TNode) (e : CEntry) : Option (List TNode
           some (t1 ++ [⟨comps, if isLnk then S_IFLNK + 0o777 else e.mode, e.uid, e.gid, clampTimestamp e.mtime, false,
                         e.hardLink, tg⟩])
 
+/-- `sqfs_dir_writer_add_entry` (lib/sqfs/src/dir_writer.c, since the D18 repair): a name longer than 256 bytes cannot be
+    stored (the on-disk length field is 8 bits, off by one), `sqfs_writer_finish` fails and tar2sqfs removes the output -/
+def storable (t : List TNode) : Bool := t.all fun n => n.path.all fun c => c.length ≤ 256
+
 end Sqfs.Tar
